@@ -378,7 +378,7 @@ func executeC20(scn *Scenario) *RunResult {
 			n++
 			liveTicks++
 			yieldsInside++
-			if n > 2_000_000_000 {
+			if n > 2_000_000_000 && locksHeld() == 0 {
 				panic(abortUnit{"stepcap"})
 			}
 			if n == next {
